@@ -31,6 +31,16 @@ type MessageWrapper struct {
 	Message  Message
 }
 
+// UnwrapMessage as in engine/prc/message_wrapper.go (a non-wrapper yields a nil message): present so that a
+// future.go that uses the helper still builds against the shim; what it does there is judged by the runs.
+func UnwrapMessage(wrapper Message) (sender, receiver *ProcessId, message Message) {
+	w, ok := wrapper.(*MessageWrapper)
+	if !ok {
+		return nil, nil, message
+	}
+	return w.Sender, w.Receiver, w.Message
+}
+
 type ResourceController struct {
 	Procs map[string]Process
 	// DescribeForward renders the message handed to a forward target as the machine's `oreason` term.
